@@ -647,6 +647,7 @@ func recipeOneof(c *ctx) {
 	for _, g := range spec.SortedKeys(groups) {
 		gi++
 		bs := groups[g]
+		sort.Slice(bs, func(i, j int) bool { return bs[i].GoName < bs[j].GoName })
 		holderField, ok := c.rt.FieldByName(g)
 		if !ok {
 			c.Oracle("C07", c.id("oneof"), false, "no-holder", "struct has no oneof holder "+g)
@@ -671,7 +672,14 @@ func recipeOneof(c *ctx) {
 					if c.n > 0 && k > c.n*len(choices) {
 						break
 					}
-					r := c.rnd.Fork(uint64(gi*1000 + k))
+					an, pn := "none", "none"
+					if act != nil {
+						an = act.GoName
+					}
+					if pri != nil {
+						pn = pri.GoName
+					}
+					r := c.rnd.Fork(hashName(fmt.Sprintf("%s/%s/%s/%d", g, an, pn, variant)))
 					v := c.zero()
 					m := MFull
 					if variant == 1 && act != nil {
@@ -856,18 +864,27 @@ func mixGV(r *Rnd, a, b *GV) *GV {
 		return CloneGV(b)
 	}
 	o := &GV{K: "st"}
-	for i, k := range a.Keys {
+	base := r.U64()
+	for _, k := range sortedCopy(a.Keys) {
+		af := a.Field(k)
+		i := 0
+		for j, kk := range a.Keys {
+			if kk == k {
+				i = j
+			}
+		}
+		_ = af
 		bf := b.Field(k)
 		o.Keys = append(o.Keys, k)
 		if bf == nil {
 			o.Elems = append(o.Elems, CloneGV(a.Elems[i]))
 			continue
 		}
-		switch NewRnd(r.U64() ^ hashName(k)).N(4) {
+		switch NewRnd(base ^ hashName(k)).N(4) {
 		case 0:
 			o.Elems = append(o.Elems, CloneGV(a.Elems[i]))
 		case 1:
-			o.Elems = append(o.Elems, mixGV(r, a.Elems[i], bf))
+			o.Elems = append(o.Elems, mixGV(NewRnd(base^hashName(k)^0x5555), a.Elems[i], bf))
 		default:
 			o.Elems = append(o.Elems, CloneGV(bf))
 		}
@@ -1112,7 +1129,8 @@ func recipeProbe(c *ctx) {
 			c.Oracle("C02", c.id("probe"), false, "no-go-field", "struct has no field for "+f.Path)
 			continue
 		}
-		r := c.rnd.Fork(uint64(fi))
+		_ = fi
+		r := c.rnd.Fork(hashName(f.Path))
 		val := c.p.b.GenGo(ft, r, MFull, 1)
 		base := c.withField(c.zero(), f, c.p.b.ZeroGo(ft))
 		if f.Oneof != "" {
@@ -1321,6 +1339,7 @@ func recipeHooks(c *ctx) {
 	if len(customs) == 0 {
 		return
 	}
+	sort.Slice(customs, func(i, j int) bool { return customs[i].GoName < customs[j].GoName })
 	id := c.p.ID + "/" + c.r.Name + "/hooks"
 	// schema hook: called once per custom field with the attribute the field would otherwise get
 	_, _, log, err := c.r.SchemaOf()
